@@ -16,6 +16,7 @@ Driver glue for C04.  Case grammar (shared with harness/src/props/c04.rs):
   (spans FLAVOUR HEX ((F LO HI)*) (SOP*))   F ::= -1 (no file) | 0 (the file) | 1 (a file id not in the database)
                                       SOP ::= (merge I J) | (join I J) | (start I) | (end I)
       -> (spans (ops ok|panic ...) ((F LO HI valid renders)*))
+         renders = a diagnostic given this span through `Diagnostic::primary` renders (file-less: as a note)
          a failing operation contributes its left operand, so that indices stay aligned
   (pipe CTX (STMT*))                  grammar of Driver/C09.lean
       -> (stop typecheck|constvars|simplify "class") | (through) | (panic "model" "site")
@@ -97,7 +98,7 @@ def handle (case : Sexp) : Sexp :=
     Sexp.app "spans" [Sexp.app "ops" (tags.map .atom),
       .list (all.toList.map fun sp => .list [Sexp.int (fileNum sp.file), Sexp.nat sp.lo, Sexp.nat sp.hi,
         .atom (if sp.valid fs then "t" else "f"),
-        .atom (match render fs [sp] with | .ok _ => "ok" | _ => "panic")])]
+        .atom (match renderDiag fs [sp] with | .ok _ => "ok" | _ => "panic")])]
   | some "pipe" =>
     match Pipeline.run nativeFloat (Driver.C09.toCtx a[0]!) (Driver.C09.toStmts (a[1]!).items) with
     | .ok (.typecheck c) => Sexp.app "stop" [.atom "typecheck", .str c]
